@@ -203,6 +203,12 @@ Record opd := mkOp {
   o_csrcs : list fpath }.        (* mv (external): fs::canonicalize of the named sources that exist (symbolic
                                     links and ".." resolved); equal to [o_srcs] when no symbolic link is involved *)
 
+(** [is_relative_descendant], fs.rs:1173-1185 (fix 3fb070d): plain components only and at least one;
+    [get_inventory_by_path] (fs.rs:232-238) answers NotFound for any other layout path, whatever
+    lies there: for this repository the object does not exist *)
+Definition is_relative_descendant (rel : bytes) : bool := rel_safe rel.
+Definition o_found (o : opd) : bool := o_exists o && is_relative_descendant (o_rel o).
+
 Definition S_o (c : cfg) (o : opd) : fpath := staged_root (c_stg c) (o_hex o).
 Definition lockf (c : cfg) (o : opd) : fpath := lock_file (c_stg c) (o_hex o).
 Definition N_o (c : cfg) (o : opd) : fpath := main_root (c_root c) (o_rel o).
@@ -291,7 +297,7 @@ Definition mv_sources (c : cfg) (o : opd) (f : fsop) : bool :=
     exist: create_dir_all(parent) - the parent may be the storage root itself, whose mkdir is a
     failing EEXIST probe - and one rename of the whole staged object *)
 Definition commit_new (c : cfg) (s : pre) (o : opd) (f : fsop) : bool :=
-  negb (o_exists o) && new_root_ok s (c_root c) (o_rel o) &&
+  negb (o_found o) && new_root_ok s (c_root c) (o_rel o) &&
   match f with
   | Mkdir p => under (c_root c) p && below p (N_o c o)
   | Rename a d => fpath_eqb a (S_o c o) && fpath_eqb d (N_o c o)
@@ -303,7 +309,7 @@ Definition commit_new (c : cfg) (s : pre) (o : opd) (f : fsop) : bool :=
     (fs::copy = create + fchmod; rollback: fs::write), on a spec upgrade the new declaration is
     created and the old ones are unlinked *)
 Definition commit_version (c : cfg) (s : pre) (o : opd) (f : fsop) : bool :=
-  o_exists o &&
+  o_found o &&
   match mobj_at s (N_o c o) with
   | None => false
   | Some m =>
@@ -477,7 +483,7 @@ Definition g_finalize (c : cfg) (o : opd) (g : gin) : list (bool * fsop) :=
       must (Create (S_head c o ++ [g_sidecar g])); must (Other 3 (S_head c o ++ [g_sidecar g]))].
 
 Definition g_install (c : cfg) (o : opd) (g : gin) : list (bool * fsop) :=
-  if o_exists o then
+  if o_found o then
     [must (Rename (S_head c o) (N_head c o));
      must (Create (N_o c o ++ [K_INVENTORY_FILE])); must (Other 3 (N_o c o ++ [K_INVENTORY_FILE]));
      must (Create (N_o c o ++ [g_sidecar g])); must (Other 3 (N_o c o ++ [g_sidecar g]))]
@@ -549,7 +555,7 @@ Definition gin_ok (c : cfg) (s : pre) (o : opd) (g : gin) : bool :=
   && match o_kind o with
      | KResetAll | KPurge => match g_restage g with None => is_nil (g_create g) | Some _ => false end
      | KCommit | KUpgrade =>
-         if o_exists o then
+         if o_found o then
            match mobj_at s (N_o c o) with
            | Some m => negb (mem_seg (o_head o) (m_versions m))
            | None => false
